@@ -303,12 +303,29 @@ class LocalsDA(object):
                 self.failures.append(f)
 
     # -- refinement of the constant env by tests on parameters
+    @staticmethod
+    def _lit(e):
+        """token of a literal operand: a string constant, or a dotted
+        attribute path such as ParseCodes.padding_data (enum member)."""
+        c = const_str(e)
+        if c is not None:
+            return c
+        if isinstance(e, ast.Attribute):
+            d = dotted(e)
+            if d and "." in d:
+                return "<%s>" % d
+        return None
+
     def test_values(self, test):
         """(name, literal set tested for equality) for `p == "a"` /
-        `p == "a" or p == "b"`; None otherwise."""
+        `p == "a" or p == "b"` / `p in ("a", "b")`; None otherwise."""
         if isinstance(test, ast.Compare) and len(test.ops) == 1 and isinstance(test.ops[0], ast.Eq):
-            if isinstance(test.left, ast.Name) and const_str(test.comparators[0]) is not None:
-                return test.left.id, frozenset([const_str(test.comparators[0])])
+            if isinstance(test.left, ast.Name) and self._lit(test.comparators[0]) is not None:
+                return test.left.id, frozenset([self._lit(test.comparators[0])])
+        if isinstance(test, ast.Compare) and len(test.ops) == 1 and isinstance(test.ops[0], ast.In) and isinstance(test.left, ast.Name):
+            c = test.comparators[0]
+            if isinstance(c, (ast.Tuple, ast.List, ast.Set)) and c.elts and all(self._lit(x) is not None for x in c.elts):
+                return test.left.id, frozenset(self._lit(x) for x in c.elts)
         if isinstance(test, ast.BoolOp) and isinstance(test.op, ast.Or):
             name, vals = None, set()
             for v in test.values:
@@ -399,6 +416,9 @@ class LocalsDA(object):
             if t_ok:
                 if tv is not None and tv[0] in self.env:
                     self.env[tv[0]] = self.env[tv[0]] & tv[1]
+                elif tv is not None and tv[0] in self.locals:
+                    # the test itself establishes the closed domain inside its true branch
+                    self.env[tv[0]] = tv[1]
                 to = self.block(s.body, S)
             else:
                 to = None
